@@ -23,6 +23,7 @@ type seg struct {
 	kind  string // valid-raw valid-debug badcrc badsig junk
 	bytes []byte
 	idx   int // for valid ones
+	own   bool // the sender uses the node's own system / component id
 }
 
 type chanSpec struct {
@@ -96,6 +97,19 @@ func drawScript(t *rapid.T, tag byte, withDialect bool, key *[32]byte, maxSeg in
 			idx++
 		case "valid-raw", "valid-debug":
 			f := tagged(tag, idx, strings.TrimPrefix(k, "valid-"), v2, key, ts)
+			own := false
+			if rapid.IntRange(0, 5).Draw(t, "sender_uses_the_node's_own_ids") == 0 {
+				own = true
+				// another station configured with the same system and component id as this node (or the node's own
+				// frames coming back over a loop): frames like all others
+				f.Sys, f.Comp = 11, 1
+				if k == "valid-debug" {
+					f.Checksum = f.ChecksumFor(lay(debugMsgID).CRCExtra)
+				}
+				if key != nil {
+					f.Sig = f.SignatureFor(*key)
+				}
+			}
 			if f.V2 {
 				// the compatibility flags are the sender's business: a receiver ignores what it does not know
 				f.Compat = rapid.SampledFrom([]byte{0, 0, 0, 1, 2, 0x80, 0xFF}).Draw(t, "compat_flags")
@@ -108,7 +122,7 @@ func drawScript(t *rapid.T, tag byte, withDialect bool, key *[32]byte, maxSeg in
 					}
 				}
 			}
-			out = append(out, seg{kind: k, bytes: f.Bytes(), idx: idx})
+			out = append(out, seg{kind: k, bytes: f.Bytes(), idx: idx, own: own})
 			idx++
 		case "badcrc-noncanonical":
 			// a complete v2 frame whose payload keeps the zero bytes a sender may leave at the end, with one payload
@@ -649,10 +663,18 @@ func runC10(w *c10World) error {
 				if e.SystemID() != e.Frame.GetSystemID() || e.ComponentID() != e.Frame.GetComponentID() || e.Message() != e.Frame.GetMessage() {
 					return fmt.Errorf("event %d: the frame event's SystemID()/ComponentID()/Message() (%d/%d/%T) disagree with its frame (%d/%d/%T)\n%s", i, e.SystemID(), e.ComponentID(), e.Message(), e.Frame.GetSystemID(), e.Frame.GetComponentID(), e.Frame.GetMessage(), dump())
 				}
-				if e.Frame.GetSystemID() != 50+w.specs[m[ch]].tag {
-					return fmt.Errorf("event %d: frame event says system %d, the frame on the wire came from system %d\n%s", i, e.Frame.GetSystemID(), 50+w.specs[m[ch]].tag, dump())
-				}
 				tag, idx, ok := identify(e.Frame)
+				wantSys := 50 + w.specs[m[ch]].tag
+				if ok {
+					for _, sg := range w.specs[m[ch]].script {
+						if sg.own && sg.idx == idx && strings.HasPrefix(sg.kind, "valid-") {
+							wantSys = 11
+						}
+					}
+				}
+				if e.Frame.GetSystemID() != wantSys {
+					return fmt.Errorf("event %d: frame event says system %d, the frame on the wire came from system %d\n%s", i, e.Frame.GetSystemID(), wantSys, dump())
+				}
 				if _, isHB := e.Frame.GetMessage().(*minimal.MessageHeartbeat); isHB {
 					tag, idx, ok = e.Frame.GetSystemID()-50, int(e.Frame.GetComponentID()), true
 				}
